@@ -20,68 +20,131 @@ package agent
 
 // the commands proper: whatever they do counts as "taking effect"; their calls are logged
 //@ func (i *AgentIPC) handleEvent(client *IPCClient, seq uint64) (err error)
-//@   trusted
 //@   logcalls
+//@   requires wf: wfHandler(i, client)
+//@   oldlet n0 := logN("ipcsent")
+//@   oldlet ok := nextDecodeOK[eventRequest](client.dec)
+//@   ensures one_reply_with_request_seq [C25]: ok ==> logN("ipcsent") == n0+1 && logAt[uint64]("ipcsent", n0) == seq
+//@   ensures undecodable_no_reply [C25]: !ok ==> err != nil && logN("ipcsent") == n0
 //@ end
 //@ func (i *AgentIPC) handleForceLeave(client *IPCClient, seq uint64) (err error)
-//@   trusted
 //@   logcalls
+//@   requires wf: wfHandler(i, client)
+//@   oldlet n0 := logN("ipcsent")
+//@   oldlet ok := nextDecodeOK[forceLeaveRequest](client.dec)
+//@   ensures one_reply_with_request_seq [C25]: ok ==> logN("ipcsent") == n0+1 && logAt[uint64]("ipcsent", n0) == seq
+//@   ensures undecodable_no_reply [C25]: !ok ==> err != nil && logN("ipcsent") == n0
 //@ end
 //@ func (i *AgentIPC) handleJoin(client *IPCClient, seq uint64) (err error)
-//@   trusted
 //@   logcalls
+//@   requires wf: wfHandler(i, client)
+//@   oldlet n0 := logN("ipcsent")
+//@   oldlet ok := nextDecodeOK[joinRequest](client.dec)
+//@   ensures one_reply_with_request_seq [C25]: ok ==> logN("ipcsent") == n0+1 && logAt[uint64]("ipcsent", n0) == seq
+//@   ensures undecodable_no_reply [C25]: !ok ==> err != nil && logN("ipcsent") == n0
 //@ end
 //@ func (i *AgentIPC) handleMembers(client *IPCClient, command string, seq uint64) (err error)
-//@   trusted
 //@   logcalls
+//@   requires wf: wfHandler(i, client)
+//@   oldlet n0 := logN("ipcsent")
+//@   oldlet ok := command != membersFilteredCommand || nextDecodeOK[membersFilteredRequest](client.dec)
+//@   ensures at_most_one_reply_with_request_seq [C25]: logN("ipcsent") <= n0+1 && (logN("ipcsent") == n0+1 ==> logAt[uint64]("ipcsent", n0) == seq)
+//@   ensures no_reply_means_error [C25]: logN("ipcsent") == n0 ==> err != nil
+//@   ensures unfiltered_always_answered [C25]: command != membersFilteredCommand ==> logN("ipcsent") == n0+1
+//@   loop 1 vars ri=rangeindex int, members []Member
+//@   loop 1 invariant listing [C25]: -1 <= ri && logN("ipcsent") == n0 && !nilSlice(members) && arrayAllocated(members)
 //@ end
 //@ func (i *AgentIPC) handleInstallKey(client *IPCClient, seq uint64) (err error)
-//@   trusted
 //@   logcalls
+//@   requires wf: wfHandler(i, client)
+//@   oldlet n0 := logN("ipcsent")
+//@   oldlet ok := nextDecodeOK[keyRequest](client.dec)
+//@   ensures one_reply_with_request_seq [C25]: ok ==> logN("ipcsent") == n0+1 && logAt[uint64]("ipcsent", n0) == seq
+//@   ensures undecodable_no_reply [C25]: !ok ==> err != nil && logN("ipcsent") == n0
 //@ end
 //@ func (i *AgentIPC) handleUseKey(client *IPCClient, seq uint64) (err error)
-//@   trusted
 //@   logcalls
+//@   requires wf: wfHandler(i, client)
+//@   oldlet n0 := logN("ipcsent")
+//@   oldlet ok := nextDecodeOK[keyRequest](client.dec)
+//@   ensures one_reply_with_request_seq [C25]: ok ==> logN("ipcsent") == n0+1 && logAt[uint64]("ipcsent", n0) == seq
+//@   ensures undecodable_no_reply [C25]: !ok ==> err != nil && logN("ipcsent") == n0
 //@ end
 //@ func (i *AgentIPC) handleRemoveKey(client *IPCClient, seq uint64) (err error)
-//@   trusted
 //@   logcalls
+//@   requires wf: wfHandler(i, client)
+//@   oldlet n0 := logN("ipcsent")
+//@   oldlet ok := nextDecodeOK[keyRequest](client.dec)
+//@   ensures one_reply_with_request_seq [C25]: ok ==> logN("ipcsent") == n0+1 && logAt[uint64]("ipcsent", n0) == seq
+//@   ensures undecodable_no_reply [C25]: !ok ==> err != nil && logN("ipcsent") == n0
 //@ end
 //@ func (i *AgentIPC) handleListKeys(client *IPCClient, seq uint64) (err error)
-//@   trusted
 //@   logcalls
+//@   requires wf: wfHandler(i, client)
+//@   oldlet n0 := logN("ipcsent")
+//@   ensures one_reply_with_request_seq [C25]: logN("ipcsent") == n0+1 && logAt[uint64]("ipcsent", n0) == seq
 //@ end
 //@ func (i *AgentIPC) handleStream(client *IPCClient, seq uint64) (err error)
-//@   trusted
 //@   logcalls
+//@   requires wf: wfHandler(i, client)
+//@   oldlet n0 := logN("ipcsent")
+//@   oldlet ok := nextDecodeOK[streamRequest](client.dec)
+//@   ensures one_reply_with_request_seq [C25]: ok ==> logN("ipcsent") == n0+1 && logAt[uint64]("ipcsent", n0) == seq
+//@   ensures undecodable_no_reply [C25]: !ok ==> err != nil && logN("ipcsent") == n0
+//@   loop 1 vars ri=rangeindex int
+//@   loop 1 invariant checking_filters [C25]: -1 <= ri && logN("ipcsent") == n0
 //@ end
 //@ func (i *AgentIPC) handleMonitor(client *IPCClient, seq uint64) (err error)
-//@   trusted
 //@   logcalls
+//@   requires wf: wfHandler(i, client)
+//@   oldlet n0 := logN("ipcsent")
+//@   oldlet ok := nextDecodeOK[monitorRequest](client.dec)
+//@   ensures one_reply_with_request_seq [C25]: ok ==> logN("ipcsent") == n0+1 && logAt[uint64]("ipcsent", n0) == seq
+//@   ensures undecodable_no_reply [C25]: !ok ==> err != nil && logN("ipcsent") == n0
 //@ end
 //@ func (i *AgentIPC) handleStop(client *IPCClient, seq uint64) (err error)
-//@   trusted
 //@   logcalls
+//@   requires wf: wfHandler(i, client)
+//@   oldlet n0 := logN("ipcsent")
+//@   oldlet ok := nextDecodeOK[stopRequest](client.dec)
+//@   ensures one_reply_with_request_seq [C25]: ok ==> logN("ipcsent") == n0+1 && logAt[uint64]("ipcsent", n0) == seq
+//@   ensures undecodable_no_reply [C25]: !ok ==> err != nil && logN("ipcsent") == n0
 //@ end
 //@ func (i *AgentIPC) handleLeave(client *IPCClient, seq uint64) (err error)
-//@   trusted
 //@   logcalls
+//@   requires wf: wfHandler(i, client)
+//@   oldlet n0 := logN("ipcsent")
+//@   ensures one_reply_with_request_seq [C25]: logN("ipcsent") == n0+1 && logAt[uint64]("ipcsent", n0) == seq
 //@ end
 //@ func (i *AgentIPC) handleQuery(client *IPCClient, seq uint64) (err error)
-//@   trusted
 //@   logcalls
+//@   requires wf: wfHandler(i, client)
+//@   oldlet n0 := logN("ipcsent")
+//@   oldlet ok := nextDecodeOK[queryRequest](client.dec)
+//@   ensures one_reply_with_request_seq [C25]: ok ==> logN("ipcsent") == n0+1 && logAt[uint64]("ipcsent", n0) == seq
+//@   ensures undecodable_no_reply [C25]: !ok ==> err != nil && logN("ipcsent") == n0
 //@ end
 //@ func (i *AgentIPC) handleRespond(client *IPCClient, seq uint64) (err error)
-//@   trusted
 //@   logcalls
+//@   requires wf: wfHandler(i, client)
+//@   oldlet n0 := logN("ipcsent")
+//@   oldlet ok := nextDecodeOK[respondRequest](client.dec)
+//@   ensures one_reply_with_request_seq [C25]: ok ==> logN("ipcsent") == n0+1 && logAt[uint64]("ipcsent", n0) == seq
+//@   ensures undecodable_no_reply [C25]: !ok ==> err != nil && logN("ipcsent") == n0
 //@ end
 //@ func (i *AgentIPC) handleStats(client *IPCClient, seq uint64) (err error)
-//@   trusted
 //@   logcalls
+//@   requires wf: wfHandler(i, client)
+//@   oldlet n0 := logN("ipcsent")
+//@   ensures one_reply_with_request_seq [C25]: logN("ipcsent") == n0+1 && logAt[uint64]("ipcsent", n0) == seq
 //@ end
 //@ func (i *AgentIPC) handleGetCoordinate(client *IPCClient, seq uint64) (err error)
-//@   trusted
 //@   logcalls
+//@   requires wf: wfHandler(i, client)
+//@   oldlet n0 := logN("ipcsent")
+//@   oldlet ok := nextDecodeOK[coordinateRequest](client.dec)
+//@   ensures one_reply_with_request_seq [C25]: ok ==> logN("ipcsent") == n0+1 && logAt[uint64]("ipcsent", n0) == seq
+//@   ensures undecodable_no_reply [C25]: !ok ==> err != nil && logN("ipcsent") == n0
 //@ end
 
 // the handshake: the version is set once, and only to a supported version the client asked for
@@ -560,6 +623,202 @@ package agent
 //@       result[countIn(members, 0, j, func(m serf.Member) bool { return listed(m, tags, status, name) })].Name == members[j].Name &&
 //@       countIn(members, 0, j+1, func(m serf.Member) bool { return listed(m, tags, status, name) }) == countIn(members, 0, j, func(m serf.Member) bool { return listed(m, tags, status, name) })+1 })
 //@   loop 3 invariant tags_match_so_far [C26]: forall(func(k string) bool { return visited(tags, k) ==> matchesWhole(mapAt(tags, k), tagValue(m, k)) })
+//@ end
+
+//@ import "github.com/hashicorp/serf/coordinate"
+
+// ---------------------------------------------------------------- reply headers carry the request's sequence number (C25, first sentence)
+// What a command does (the agent / Serf operation behind it) is outside this property: the operations are trusted
+// stubs that touch none of the reply bookkeeping. What is proved is the reply discipline of every handler.
+//@ pure func wfHandler(i *AgentIPC, client *IPCClient) bool {
+//@   return wfTagsAgent(i) && i.logger != nil && wfLogWriter(i.logWriter) && client != nil && client.dec != nil && client.eventStreams != nil && client.pendingQueries != nil
+//@ }
+//@ func (a *Agent) UserEvent(name string, payload []byte, coalesce bool) (err error)
+//@   trusted
+//@   assigns
+//@ end
+//@ func (a *Agent) ForceLeave(node string) (err error)
+//@   trusted
+//@   assigns
+//@ end
+//@ func (a *Agent) ForceLeavePrune(node string) (err error)
+//@   trusted
+//@   assigns
+//@ end
+//@ func (a *Agent) Join(addrs []string, replay bool) (n int, err error)
+//@   trusted
+//@   assigns
+//@ end
+//@ func (a *Agent) Leave() (err error)
+//@   trusted
+//@   assigns
+//@ end
+//@ func (a *Agent) Shutdown() (err error)
+//@   trusted
+//@   assigns
+//@ end
+//@ func (a *Agent) Query(name string, payload []byte, params *serf.QueryParam) (r *serf.QueryResponse, err error)
+//@   trusted
+//@   assigns
+//@   ensures result: err == nil ==> r != nil
+//@ end
+//@ func (a *Agent) InstallKey(key string) (r *serf.KeyResponse, err error)
+//@   trusted
+//@   assigns
+//@   ensures result: r != nil
+//@ end
+//@ func (a *Agent) UseKey(key string) (r *serf.KeyResponse, err error)
+//@   trusted
+//@   assigns
+//@   ensures result: r != nil
+//@ end
+//@ func (a *Agent) RemoveKey(key string) (r *serf.KeyResponse, err error)
+//@   trusted
+//@   assigns
+//@   ensures result: r != nil
+//@ end
+//@ func (a *Agent) ListKeys() (r *serf.KeyResponse, err error)
+//@   trusted
+//@   assigns
+//@   ensures result: r != nil
+//@ end
+//@ func (a *Agent) Stats() (r map[string]map[string]string)
+//@   trusted
+//@   assigns
+//@ end
+//@ func (a *Agent) RegisterEventHandler(eh EventHandler)
+//@   trusted
+//@   assigns
+//@ end
+//@ func (a *Agent) DeregisterEventHandler(eh EventHandler)
+//@   trusted
+//@   assigns
+//@ end
+// stream life cycle (channels, registration) is not part of this property
+//@ func (es *eventStream) Stop()
+//@   trusted
+//@   assigns
+//@ end
+//@ func (ls *logStream) Stop()
+//@   trusted
+//@   assigns
+//@ end
+//@ func ParseEventFilter(v string) (filters []EventFilter)
+//@   trusted
+//@   assigns
+//@   ensures result: len(filters) >= 0 && (nilSlice(filters) || arrayAllocated(filters))
+//@ end
+//@ func (s *serf.Serf) GetCachedCoordinate(name string) (c *coordinate.Coordinate, ok bool)
+//@   trusted
+//@   assigns
+//@   ensures cached_is_a_coordinate: ok ==> c != nil
+//@ end
+
+// ---------------------------------------------------------------- stream records (C25)
+// Every record a stream sends carries the sequence number of the request that opened the stream.
+//@ pure func isIPCClient(c streamClient) bool { _, ok := c.(*IPCClient); return ok && c != nil }
+//@ pure func sentWithSeq(lo int, hi int, seq uint64) bool { return forall(func(j int) bool { return lo <= j && j < hi ==> logAt[uint64]("ipcsent", j) == seq }) }
+
+//@ func (c *IPCClient) RegisterQuery(q *serf.Query) (id uint64)
+//@   trusted
+//@   assigns
+//@ end
+//@ func (es *eventStream) sendMemberEvent(me serf.MemberEvent) (err error)
+//@   logcalls esmember
+//@   requires wf: es != nil && isIPCClient(es.client) && len(me.Members) >= 0 && (nilSlice(me.Members) || arrayAllocated(me.Members))
+//@   oldlet n0 := logN("ipcsent")
+//@   ensures one_record_with_stream_seq [C25]: logN("ipcsent") == n0+1 && logAt[uint64]("ipcsent", n0) == es.seq && logAt[bool]("ipcsentobj", n0)
+//@   loop 1 vars ri=rangeindex int, members []Member
+//@   loop 1 invariant converting [C25]: -1 <= ri && logN("ipcsent") == n0 && !nilSlice(members) && arrayAllocated(members)
+//@ end
+//@ func (es *eventStream) sendUserEvent(ue serf.UserEvent) (err error)
+//@   logcalls esuser
+//@   requires wf: es != nil && isIPCClient(es.client)
+//@   oldlet n0 := logN("ipcsent")
+//@   ensures one_record_with_stream_seq [C25]: logN("ipcsent") == n0+1 && logAt[uint64]("ipcsent", n0) == es.seq && logAt[bool]("ipcsentobj", n0)
+//@ end
+//@ func (es *eventStream) sendQuery(q *serf.Query) (err error)
+//@   logcalls esquery
+//@   requires wf: es != nil && isIPCClient(es.client) && q != nil
+//@   oldlet n0 := logN("ipcsent")
+//@   ensures one_record_with_stream_seq [C25]: logN("ipcsent") == n0+1 && logAt[uint64]("ipcsent", n0) == es.seq && logAt[bool]("ipcsentobj", n0)
+//@ end
+// the forwarding loop: one record per event taken from the stream's queue, in the order taken
+// what HandleEvent queues is what the agent handed it: queries are non-nil, member lists are ordinary slices
+//@ pure func wfQueued(e serf.Event) bool {
+//@   q, isQ := e.(*serf.Query)
+//@   me, isM := e.(serf.MemberEvent)
+//@   return (isQ ==> q != nil) && (isM ==> len(me.Members) >= 0 && (nilSlice(me.Members) || arrayAllocated(me.Members)))
+//@ }
+//@ func (es *eventStream) stream()
+//@   requires wf: es != nil && isIPCClient(es.client) && es.logger != nil && es.eventCh != nil
+//@   requires queued_events_wellformed: forall(func(j int) bool { return j >= recvN(es.eventCh) ==> wfQueued(recvAt(es.eventCh, j)) })
+//@   oldlet n0 := logN("ipcsent")
+//@   oldlet r0 := recvN(es.eventCh)
+//@   ensures records_carry_stream_seq [C25]: sentWithSeq(n0, logN("ipcsent"), es.seq)
+//@   ensures at_most_one_record_per_event [C25]: logN("ipcsent")-n0 <= recvN(es.eventCh)-r0
+//@   loop 1 invariant forwarding [C25]: sentWithSeq(n0, logN("ipcsent"), es.seq) && logN("ipcsent")-n0 == recvN(es.eventCh)-r0 && logN("ipcsent") >= n0
+//@   loop 1 invariant queued_events_wellformed [C25]: forall(func(j int) bool { return j >= recvN(es.eventCh) ==> wfQueued(recvAt(es.eventCh, j)) })
+//@ end
+// an event is queued for the stream only if one of the stream's filters matches it, and then as it is
+//@ func (es *eventStream) HandleEvent(e serf.Event)
+//@   requires wf: es != nil && es.logger != nil && wfEvent(e) && len(es.filters) >= 0 && (nilSlice(es.filters) || arrayAllocated(es.filters))
+//@   # (a stream that was stopped has been taken out of the agent's handler list before its queue was closed)
+//@   requires not_stopped: es.eventCh != nil && !closed(es.eventCh)
+//@   oldlet s0 := sentN(es.eventCh)
+//@   ensures only_matching_events_queued [C25]: sentN(es.eventCh) <= s0+1 && (sentN(es.eventCh) == s0+1 ==>
+//@       same(sentAt(es.eventCh, s0), e) && exists(func(k int) bool { return 0 <= k && k < len(es.filters) && filterMatches(es.filters[k], e) }))
+//@   loop 1 vars ri=rangeindex int
+//@   loop 1 invariant no_match_yet [C25]: -1 <= ri && ri < len(es.filters) && sentN(es.eventCh) == s0
+//@ end
+
+// log stream: every record carries the monitor request's sequence number
+//@ func (ls *logStream) stream()
+//@   requires wf: ls != nil && isIPCClient(ls.client) && ls.logger != nil && ls.logCh != nil
+//@   oldlet n0 := logN("ipcsent")
+//@   oldlet r0 := recvN(ls.logCh)
+//@   ensures records_carry_stream_seq [C25]: sentWithSeq(n0, logN("ipcsent"), ls.seq)
+//@   ensures at_most_one_record_per_line [C25]: logN("ipcsent")-n0 <= recvN(ls.logCh)-r0
+//@   loop 1 invariant forwarding [C25]: sentWithSeq(n0, logN("ipcsent"), ls.seq) && logN("ipcsent")-n0 == recvN(ls.logCh)-r0 && logN("ipcsent") >= n0
+//@ end
+
+// query stream: acknowledgement and response records only for acknowledgements and responses actually received from the
+// query (a closed channel yields none), at most one completion record, and that one last
+//@ func (qs *queryResponseStream) sendAck(from string) (err error)
+//@   logcalls qsack
+//@   requires wf: qs != nil && isIPCClient(qs.client)
+//@   oldlet n0 := logN("ipcsent")
+//@   ensures one_record_with_stream_seq [C25]: logN("ipcsent") == n0+1 && logAt[uint64]("ipcsent", n0) == qs.seq && logAt[bool]("ipcsentobj", n0)
+//@ end
+//@ func (qs *queryResponseStream) sendResponse(from string, payload []byte) (err error)
+//@   logcalls qsresp
+//@   requires wf: qs != nil && isIPCClient(qs.client)
+//@   oldlet n0 := logN("ipcsent")
+//@   ensures one_record_with_stream_seq [C25]: logN("ipcsent") == n0+1 && logAt[uint64]("ipcsent", n0) == qs.seq && logAt[bool]("ipcsentobj", n0)
+//@ end
+//@ func (qs *queryResponseStream) sendDone() (err error)
+//@   logcalls qsdone
+//@   requires wf: qs != nil && isIPCClient(qs.client)
+//@   oldlet n0 := logN("ipcsent")
+//@   ensures one_record_with_stream_seq [C25]: logN("ipcsent") == n0+1 && logAt[uint64]("ipcsent", n0) == qs.seq && logAt[bool]("ipcsentobj", n0)
+//@ end
+//@ func (qs *queryResponseStream) Stream(resp *serf.QueryResponse)
+//@   requires wf: qs != nil && isIPCClient(qs.client) && qs.logger != nil && resp != nil
+//@   oldlet n0 := logN("ipcsent")
+//@   oldlet a0 := callNOf("qsack")
+//@   oldlet p0 := callNOf("qsresp")
+//@   oldlet d0 := callNOf("qsdone")
+//@   oldlet ra0 := recvN(resp.AckCh())
+//@   oldlet rp0 := recvN(resp.ResponseCh())
+//@   ensures records_carry_stream_seq [C25]: sentWithSeq(n0, logN("ipcsent"), qs.seq)
+//@   ensures acks_are_received_acks [C25]: callNOf("qsack")-a0 == recvN(resp.AckCh())-ra0
+//@   ensures responses_are_received_responses [C25]: callNOf("qsresp")-p0 == recvN(resp.ResponseCh())-rp0
+//@   ensures at_most_one_completion_record [C25]: callNOf("qsdone") <= d0+1
+//@   ensures nothing_but_these_records [C25]: logN("ipcsent")-n0 == (callNOf("qsack")-a0)+(callNOf("qsresp")-p0)+(callNOf("qsdone")-d0)
+//@   loop 1 vars ackCh <-chan string, respCh <-chan serf.NodeResponse
+//@   loop 1 invariant channels [C25]: (ackCh == nil || same(ackCh, resp.AckCh())) && (respCh == nil || same(respCh, resp.ResponseCh()))
+//@   loop 1 invariant streaming [C25]: sentWithSeq(n0, logN("ipcsent"), qs.seq) && callNOf("qsack")-a0 == recvN(resp.AckCh())-ra0 && callNOf("qsresp")-p0 == recvN(resp.ResponseCh())-rp0 &&
+//@       callNOf("qsdone") == d0 && logN("ipcsent")-n0 == (callNOf("qsack")-a0)+(callNOf("qsresp")-p0)
 //@ end
 
 // END-OF-CONTRACTS
